@@ -17,6 +17,7 @@ from pyvc.engine import (Contract, Case, LoopSpec, ObjShape, FunShape, ZV, PObj,
                          box, unbox, fresh, empty_list, ShapeMismatch, zbool)
 from contracts.guesser_core import *   # noqa
 from contracts import guesser_core as gc
+from contracts import guesser_lemmas as gl
 
 fv = T.fval
 
@@ -273,7 +274,7 @@ KMAX = B.CONFIG_KEY.mk(T.str_lit('guessing_info'), T.str_lit('max_probability'))
 
 def _init_requires(c):
     G = g_of(c.pcfg)
-    out = [('wf_base', wf_base(G, c.pcfg.fields['base'].term))]
+    out = [('wf_base', wf_base(G, c.pcfg.fields['base'].term)), ('wf_grammar', z3.And(gl.wf_grammar(G)))]
     if not isinstance(c.save_config, PNone):
         opts = c.save_config.fields['opts'].term
         out.append(('options_present', z3.And(B.CONFIG_OPTS.has(opts, KMIN), B.CONFIG_OPTS.has(opts, KMAX))))
@@ -288,13 +289,17 @@ def _init_ensures(c):
     if isinstance(c.save_config, PNone):
         roots = Roots(G, base, BASE.len(base))
         out += [('queue_is_roots', s1.fields['p_queue'].term == AddAll(EMPTY_BAG, roots, PTITEMS.len(roots))),
+                ('queue_rep', z3.And(in_bag_all_wf(G, s1.fields['p_queue'].term), gl.counts_nonneg(s1.fields['p_queue'].term),
+                                     gl.queue_bound(s1.fields['p_queue'].term, T.F_ONE))),
                 ('max_is_one', s1.fields['max_probability'].term == T.F_ONE),
                 ('min_is_zero', s1.fields['min_probability'].term == T.F_ZERO)]
     else:
         opts = c.save_config.fields['opts'].term
         M = B.s_tofloat(B.CONFIG_OPTS.get(opts, KMAX))
         lo = B.s_tofloat(B.CONFIG_OPTS.get(opts, KMIN))
-        out += [('max_from_save', s1.fields['max_probability'].term == M),
+        out += [('queue_rep', z3.And(in_bag_all_wf(G, s1.fields['p_queue'].term), gl.counts_nonneg(s1.fields['p_queue'].term),
+                                     gl.queue_bound(s1.fields['p_queue'].term, M))),
+                ('max_from_save', s1.fields['max_probability'].term == M),
                 ('min_from_save', s1.fields['min_probability'].term == lo),
                 ('restored_r1', bag_all_r1(G, s1.fields['p_queue'].term, lo, M))]
     return out
@@ -329,5 +334,14 @@ _init = Contract(
            1: LoopSpec(fingerprint='for base_item in self.pcfg.initalize_base_structures()', inv=_init_inv_restore)},
     note='new session: queue = the roots, max_probability = 1.0; restore: queue holds only R1 nodes, bounds from the save file',
 )
+def _init_hints(c):
+    G = g_of(c.pcfg)
+    base = c.pcfg.fields['base'].term
+    roots = Roots(G, base, BASE.len(base))
+    return [gl.addall_rep.inst(G, EMPTY_BAG, roots, PTITEMS.len(roots)),
+            gl.addall_bound.inst(EMPTY_BAG, roots, T.F_ONE, PTITEMS.len(roots))]
+
+
+_init.post_hints = _init_hints
 _init.variants = [{'save_config': PNone()}, {}]
 _init.defaults = {'save_config': lambda: PNone()}
